@@ -1,4 +1,4 @@
-\* C20: thorough: every case on <= 3 modules without self-dependencies and with every shared object present (cyclic graphs included), calls in name order, every listing, EVERY hook profile
+\* C20: thorough: every case on <= 3 modules without self-dependencies and with every shared object present (cyclic graphs included), calls in name order, every listing, EVERY hook profile (every subset of the modules lacking module_post_init x every subset lacking module_destructor x every subset of the modules that declare nothing lacking module_constructor)
 SPECIFICATION Spec
 CONSTANTS
     Source = "enum"
